@@ -1,6 +1,7 @@
 package updog
 
 import (
+	"encoding/binary"
 	"fmt"
 	"math/bits"
 	"sort"
@@ -8,6 +9,7 @@ import (
 	"time"
 
 	"github.com/RoaringBitmap/roaring"
+	"github.com/cespare/xxhash/v2"
 )
 
 // Query describes a count query to execute on an index. updog allows you to run
@@ -301,12 +303,29 @@ func (e *ExprAnd) String() string {
 }
 
 func (e *ExprAnd) cacheKey() uint64 {
-	key := uint64(maskAnd)
-	for _, e := range e.Exprs {
-		key = key ^ bits.RotateLeft64(e.cacheKey(), 1)
+	return combinedCacheKey(maskAnd, e.Exprs)
+}
+
+// combinedCacheKey derives the cache key of an n-ary operator from the operator's mask and
+// the keys of all its operands. The operand keys are sorted first, since the order of operands
+// does not change the meaning of AND and OR, and then hashed together, so that different
+// operand lists (including repeated operands) do not cancel each other out.
+func combinedCacheKey(mask uint64, exprs []Expression) uint64 {
+	keys := make([]uint64, 0, len(exprs))
+	for _, e := range exprs {
+		keys = append(keys, e.cacheKey())
 	}
 
-	return key
+	sort.Slice(keys, func(i, j int) bool { return keys[i] < keys[j] })
+
+	buf := make([]byte, 8, 8*(len(keys)+1))
+	binary.BigEndian.PutUint64(buf, mask)
+
+	for _, k := range keys {
+		buf = binary.BigEndian.AppendUint64(buf, k)
+	}
+
+	return xxhash.Sum64(buf)
 }
 
 type ExprOr struct {
@@ -357,10 +376,5 @@ func (e *ExprOr) String() string {
 }
 
 func (e *ExprOr) cacheKey() uint64 {
-	key := uint64(maskOr)
-	for _, e := range e.Exprs {
-		key = key ^ bits.RotateLeft64(e.cacheKey(), 1)
-	}
-
-	return key
+	return combinedCacheKey(maskOr, e.Exprs)
 }
